@@ -60,6 +60,7 @@ class Impl:
         self.next_tok = 0
         self.deferred_answers = {}
         self.pending_socks = {}
+        self.agents = {}
         self.reactor = MemoryReactorClock()
         self.st = SimTor()
         if case.get('consensus'):
@@ -269,6 +270,21 @@ class Impl:
                 self.watch(ep.connect(Factory.forProtocol(Protocol)))
                 if k == 'viap':
                     self.pending_socks[(op[2], op[3])] = fake
+            elif k == 'viaw':
+                # the same connection made by an HTTP request through Circuit.web_agent() — one agent per circuit object, so a
+                # second request to the same origin goes through the same agent (and a new SOCKS connection: no pool)
+                key = ('agent', op[1])
+                if key not in self.agents:
+                    fake = FakeSocksEndpoint(op[2], op[3])
+                    self.agents[key] = (self.cobjs[op[1]].web_agent(self.reactor, fake), fake)
+                agent, fake = self.agents[key]
+                fake.addr = (op[2], op[3])
+                d = agent.request(b'GET', b'http://example.com/')
+                d.addErrback(lambda f: None)
+                # nobody is told when the stream of an HTTP request has been attached: the Deferred of the registration is held by the
+                # endpoint alone; it is numbered like any other
+                self.log.append(['d', self.next_did])
+                self.next_did += 1
             elif k == 'vialost':
                 # Tor answers the SOCKS request of that connection with a failure (before any stream of it was reported)
                 fake = self.pending_socks.pop((op[1], op[2]))
@@ -478,7 +494,7 @@ def op_line(op):
         return 'att %s' % ('-' if op[1] is None else op[1])
     if k == 'ans':
         return 'ans %d %s' % (op[1], 'x' if op[2].startswith('z') else op[2])
-    if k in ('via', 'viap'):
+    if k in ('via', 'viap', 'viaw'):
         return 'via %d %s %d' % (op[1], hexs(op[2]), op[3])
     if k == 'vialost':
         return 'vialost %s %d' % (hexs(op[1]), op[2])
@@ -591,7 +607,7 @@ def parse_model(outs, marks, case):
     # the Deferred left behind in the registry by a failed via-circuit connection is held by nobody: its completion cannot be observed
     ghosts = set()
     for i, op in enumerate(case['ops']):
-        if op[0] == 'vialost' and i + 1 < len(trace):
+        if op[0] in ('vialost', 'viaw') and i + 1 < len(trace):
             ghosts |= {o[1] for o in trace[i + 1]['outs'] if o[0] == 'd'}
     if ghosts:
         for t in trace:
